@@ -136,6 +136,23 @@ def blackbox(ctx, r):
         GC.simple_layout(s, blocks)
         s.meta = {"big-output": coin}
         scns.append(s)
+    # ONE block whose lines alone are several hundred KiB (thousands of OP_RETURN outputs: one transaction with 3000 of them, and 1500
+    # transactions with two each), payload lengths 250..252 through PUSHDATA1 (script lengths 253..255, the first three-byte CompactSize)
+    for coin in ("bitcoin", "dogecoin"):
+        blocks = GC.gen_chain(r, coin, 3, max_txs=1, max_io=1, segwit=False, auxpow_mix=False)
+        mk = lambda k: (0, b"\x6a" + (b"\x4c" + bytes([250 + k % 3]) + (b"pay-%06d-" % k + b"x" * 252)[:250 + k % 3] if k % 5 == 0 else bytes([20 + k % 50]) + (b"n%06d" % k + b"." * 80)[:20 + k % 50]))
+        blocks[1].txs.append(K.Tx([(GC.rb(r, 32), 0, b"\x01\x01", 1)], [mk(k) for k in range(3000)]))
+        for q in range(1500):
+            blocks[2].txs.append(K.Tx([(GC.rb(r, 32), q, b"\x01\x01", 1)], [mk(3000 + 2 * q), mk(3001 + 2 * q)]))
+        prev = blocks[0].hash()
+        for b in blocks[1:]:
+            b.prev = prev
+            b.merkle_root = None
+            prev = b.hash()
+        s = K.Scenario(coin=coin, callback="opreturn")
+        GC.simple_layout(s, blocks)
+        s.meta = {"crowded-block": coin}
+        scns.append(s)
     bb.check(ctx, "opreturn-chains", scns, [bb.cmp_exit, bb.cmp_opreturn], nontrivial=lambda s, m: len(m["out"]) > 0)
 
 
